@@ -135,10 +135,6 @@ theorem checkCommitted_n (w : W) (h v hash : Nat) :
       · exact ⟨c1, c2, c3, c4, c6⟩
       · split <;> exact ⟨c1, c2, c3, c4, c6⟩
 
-/-- the COMMIT a node creates for (h, v, hash) -/
-def ownCommit (c : Cfg) (h v hash : Nat) : CMsg := ⟨⟨tC, c.inst, h, v, hash⟩, mySig c, true⟩
-/-- the PREPARE a node creates -/
-def ownPrepare (c : Cfg) (h v hash : Nat) : PMsg := ⟨⟨tP, c.inst, h, v, hash⟩, mySig c⟩
 
 theorem onPreparedLocally_n (w : W) (h v hash : Nat) :
     (onPreparedLocally w h v hash).n.cfg = w.n.cfg
@@ -485,5 +481,41 @@ theorem step_ev (n : Node) (e : Event) (spi : List Spi) (hstart : ∀ c, e = .st
     | commit m => exact handleCommit_ev { n := n, spi := spi } m
     | viewChange m => exact handleViewChange_ev { n := n, spi := spi } m
     | newView m => exact handleNewView_ev { n := n, spi := spi } m
+
+end LeanHelix.Term
+
+namespace LeanHelix.Term
+open LeanHelix LeanHelix.Msg
+
+theorem storePP_getPP_stable (s : Store) (m : PPMsg) (h v : Nat) (p : PPMsg) (hp : s.getPP h v = some p) :
+    (s.storePP m).getPP h v = some p := by
+  unfold Store.storePP
+  split
+  · exact hp
+  · unfold Store.getPP at hp ⊢
+    simp only [List.find?_append, hp, Option.some_or]
+
+theorem apply_getPP_stable (s : Store) (op : StoreOp) (h v : Nat) (p : PPMsg) (hp : s.getPP h v = some p) :
+    (s.apply op).getPP h v = some p := by
+  cases op with
+  | pp m => exact storePP_getPP_stable s m h v p hp
+  | prepare m =>
+    show (s.storePrepare m).getPP h v = some p
+    unfold Store.storePrepare; split <;> exact hp
+  | commit m =>
+    show (s.storeCommit m).getPP h v = some p
+    unfold Store.storeCommit; split <;> exact hp
+  | vc m =>
+    show (s.storeVC m).getPP h v = some p
+    unfold Store.storeVC; split <;> exact hp
+
+/-- **first-wins**: once a proposal is stored for (height, view) it is the stored proposal forever -/
+theorem Evolves.getPP_stable {P} {a b : Node} (hev : Evolves P a b) (h v : Nat) (p : PPMsg)
+    (hp : a.store.getPP h v = some p) : b.store.getPP h v = some p := by
+  induction hev with
+  | refl => exact hp
+  | other hh => rw [hh.2]; exact hp
+  | insert op _ => exact apply_getPP_stable _ op h v p hp
+  | trans _ _ ih1 ih2 => exact ih2 (ih1 hp)
 
 end LeanHelix.Term
